@@ -24,6 +24,12 @@ def space(tier):
 
 def cases(tier):
     q = tier == 'quick'
+    # pipelines (hierarchical splitting): a factor returned by t.svd(j) -- a train whose first (v) or last (u) boundary rank is
+    # the bond of the first splitting -- is split again; its inner bonds may exceed the product of the mode sizes on one side
+    for rows in ([2, 2, 2, 2], [3, 2, 2, 2], [2, 2, 2, 3]) + (() if q else ([2, 2, 2, 2, 2], [3, 3, 3, 3])):
+        for c in (False, True):
+            for j in range(1, len(rows)):
+                yield {'pipe': True, 'rows': list(rows), 'c': c, 'j': j}
     for d in ([2, 3] if q else [2, 3, 4, 5]):
         for rows in itertools.product(([1, 2, 3] if q else [1, 2, 3, 4]) if d < 4 else ([2, 3] if d == 4 else [2]), repeat=d):
             for rk in rank_vectors(d, ([1, 2, 3] if (d < 3 or not q) else [1, 3]) if d < 5 else [1, 2]):
@@ -36,6 +42,10 @@ def cases(tier):
                                 if scale != 1.0 and fam == 'int':
                                     continue
                                 yield {'rows': list(rows), 'r': rk, 'c': c, 'fam': fam, 'idx': idx, 'scale': scale}
+                                if fam == 'gauss' and scale == 1.0 and c is True and d >= 2:
+                                    # per-core dtype mixtures: real first core with complex later cores, and only the first complex
+                                    yield {'rows': list(rows), 'r': rk, 'c': 'tail', 'fam': fam, 'idx': idx, 'scale': scale}
+                                    yield {'rows': list(rows), 'r': rk, 'c': 'head', 'fam': fam, 'idx': idx, 'scale': scale}
                             if fam == 'gauss':
                                 # partially orthonormal representations: every core but the first left-orthonormal / every core but
                                 # the last right-orthonormal (what scalar * ortho_left() or sums of unit tensors look like)
@@ -68,7 +78,53 @@ def cases(tier):
                             yield {'rows': rows, 'r': rk, 'c': c, 'fam': 'ties', 'idx': idx, 'scale': 1.0}
 
 
+def run_pipe(case, seed):
+    r = R(case)
+    rng = rng_for(case, seed)
+    rows, c, j = case['rows'], case['c'], case['j']
+    d = len(rows)
+    from vt.core import max_ranks, dense_cores
+    t = tt_from(rand_cores(rng, rows, [1] * d, max_ranks(rows), c))
+    r.nontrivial = True
+    with r.op('pipe:first-split:call'):
+        u1, s1, v1 = t.svd(j)
+    for name, x in (('v', v1), ('u', u1)):
+        if meta_problem(x) is not None or x.order < 2:
+            continue
+        sx = snap(x)
+        full = dense_cores(x.cores)                       # (r0, n.., 1.., rd)
+        full = full.reshape([x.ranks[0]] + list(x.row_dims) + [x.ranks[-1]])
+        for idx in range(1, x.order):
+            mrow = x.ranks[0] * int(np.prod(x.row_dims[:idx]))
+            A = full.reshape(mrow, -1)
+            sref = np.linalg.svd(A, compute_uv=False)
+            key = 'pipe:%s-factor' % name
+            with r.op(key + ':svd:call'):
+                u, sv, v = x.svd(idx)
+                if meta_problem(u) is None and meta_problem(v) is None:
+                    U = dense_cores(u.cores).reshape(mrow, -1); V = dense_cores(v.cores).reshape(len(sv), -1)
+                    k_ = int(np.sum(sref > 1e-12 * sref[0]))
+                    r.true(key + ':svd:count', len(sv) >= k_, '%d singular values, unfolding has rank %d (ranks %s, index %d)' % (len(sv), k_, x.ranks, idx))
+                    kk = min(len(sv), len(sref))
+                    r.close(key + ':svd:singular-values', np.asarray(sv)[:kk], sref[:kk], 1e-10, 'ranks %s index %d' % (x.ranks, idx))
+                    r.close(key + ':svd:reconstruction', (U * np.asarray(sv)) @ V, A, 1e-10, 'ranks %s index %d' % (x.ranks, idx))
+                    r.close(key + ':svd:u-orthonormal', U.conj().T @ U, np.eye(U.shape[1]), 1e-10)
+                    r.close(key + ':svd:v-orthonormal', V @ V.conj().T, np.eye(V.shape[0]), 1e-10)
+                else:
+                    r.fail(key + ':svd:meta', 'factor is not a consistent train')
+            r.true(key + ':svd:input-unchanged', unchanged(x, sx))
+            with r.op(key + ':pinv:call'):
+                pv = x.pinv(idx)
+                if meta_problem(pv) is None:
+                    Pref = np.linalg.pinv(A).conj().T
+                    r.close(key + ':pinv:value', dense_cores(pv.cores).reshape(mrow, -1), Pref, 1e-9, 'ranks %s index %d' % (x.ranks, idx))
+            r.true(key + ':pinv:input-unchanged', unchanged(x, sx))
+    return r
+
+
 def run_case(case, seed):
+    if case.get('pipe'):
+        return run_pipe(case, seed)
     r = R(case)
     rng = rng_for(case, seed)
     rows, rk, c, fam, idx = case['rows'], case['r'], case['c'], case['fam'], case['idx']
